@@ -68,16 +68,33 @@ type ipAction struct {
 }
 
 type interposer struct {
-	sys      *ipSystem
-	next     http.RoundTripper
-	clock    int64
-	mu       sync.Mutex
-	events   []*rpcEvent
-	counts   map[string]int
-	actions  []ipAction
-	fired    int64
-	killed   []string
-	inflight int64
+	sys        *ipSystem
+	next       http.RoundTripper
+	clock      int64
+	mu         sync.Mutex
+	events     []*rpcEvent
+	counts     map[string]int
+	actions    []ipAction
+	fired      int64
+	killed     []string
+	inflight   int64
+	lastMethod string
+	lastAct    int64 // unix nanos of the last RPC start/end other than keepalive and stats polling
+}
+
+func (ip *interposer) touch(method string) {
+	if method == "Supervisor.Keepalive" || method == "Worker.TaskStats" || method == "Worker.Stats" {
+		return
+	}
+	atomic.StoreInt64(&ip.lastAct, time.Now().UnixNano())
+	ip.mu.Lock()
+	ip.lastMethod = method
+	ip.mu.Unlock()
+}
+
+// quietFor tells for how long no RPC other than keepalive/stats polling started or finished.
+func (ip *interposer) quietFor() time.Duration {
+	return time.Duration(time.Now().UnixNano() - atomic.LoadInt64(&ip.lastAct))
 }
 
 func methodOf(path string) string {
@@ -106,6 +123,8 @@ func (ip *interposer) RoundTrip(req *http.Request) (*http.Response, error) {
 	ip.mu.Unlock()
 	atomic.AddInt64(&ip.inflight, 1)
 	defer atomic.AddInt64(&ip.inflight, -1)
+	ip.touch(method)
+	defer ip.touch(method)
 	for _, a := range acts {
 		if a.When == "before" {
 			ip.apply(a, req)
@@ -225,7 +244,7 @@ func startSession(c sessConf, actions ...ipAction) *liveSession {
 		ts.KeepaliveRpcTimeout = ts.KeepalivePeriod
 	}
 	sys := &ipSystem{System: ts}
-	ip := &interposer{sys: sys, next: ts.HTTPClient().Transport, counts: map[string]int{}, actions: actions}
+	ip := &interposer{sys: sys, next: ts.HTTPClient().Transport, counts: map[string]int{}, actions: actions, lastAct: time.Now().UnixNano()}
 	sys.ip = ip
 	sys.client = &http.Client{Transport: ip}
 	ls.Sys, ls.IP = sys, ip
@@ -271,6 +290,11 @@ type runOutcome struct {
 	Panic    any
 	PanicAt  string
 	TimedOut bool
+	// Stalled: the watchdog fired and no RPC other than keepalive/stats polling had started or
+	// finished for at least two thirds of the watchdog period (bounded-progress rule, DESIGN §3.6):
+	// every timer in the system (retry backoffs of at most seconds) is far shorter.
+	Stalled bool
+	Quiet   string // how long the RPC layer had been quiet when the watchdog fired, and the last method seen
 }
 
 // runSpec runs a program on a session with a watchdog (its firing is inconclusive, not a violation).
@@ -301,6 +325,14 @@ func runSpec(ls *liveSession, sp Spec, args [2]bigslice.Slice, scan bool, timeou
 	case <-done:
 	case <-time.After(timeout):
 		out.TimedOut = true
+		if ls.IP != nil {
+			ls.IP.mu.Lock()
+			out.Quiet = fmt.Sprintf("quiet for %v, last RPC %s", ls.IP.quietFor().Round(time.Second), ls.IP.lastMethod)
+			ls.IP.mu.Unlock()
+			if ls.IP.quietFor() > timeout*2/3 {
+				out.Stalled = true
+			}
+		}
 		dumpGoroutines("timeout-" + sp.Run)
 	}
 	return
